@@ -290,6 +290,17 @@ func (e editor) list(from *Selection, to *Selection, m *meta.List, new bool, str
 		var newItem bool
 		toChild = nil
 
+		for i, k := range key {
+			if k == nil {
+				// the source gave a key with a hole in it: an entry without one of its key leaves
+				ident := "key"
+				if i < len(m.KeyMeta()) {
+					ident = m.KeyMeta()[i].Ident()
+				}
+				return fmt.Errorf("%w. entry of list %s has no value for its key '%s'", fc.BadRequestError, m.Ident(), ident)
+			}
+		}
+
 		toRequest.First = true
 		toRequest.SetRow(fromRequest.Row64)
 		toRequest.Selection = to
